@@ -710,6 +710,7 @@ public:
 private:
     CastExpressionSyntax* castExpr_ = nullptr;
     BinaryExpressionSyntax* binExpr_ = nullptr;
+    AST_CHILD_LST2(castExpr_, binExpr_)
 };
 
 /**
